@@ -1,4 +1,5 @@
 import XpmVerif.Proofs.FileTokens
+import XpmVerif.Model.FileTokSteps
 /-! M2' — `CounterToken.release` as two steps.  The real method, under the thread lock and the IPC lock, first recounts and
     takes the file out of its cache (`relBegin`), then unlinks it if it is still there (`TokenFile.delete`,
     `unlink(missing_ok=True)`: `relEnd`), then notifies.  A `TokenFile.watch` thread of another process does not take the
@@ -6,19 +7,6 @@ import XpmVerif.Proofs.FileTokens
     extended with this window (`rel = some (p, f)`): while it is open, `p` holds both locks, so only the steps that need
     neither are enabled. -/
 namespace XpmVerif.FileTokens
-
-/-- first half: recount, cache test, cache and counter updated (the file is still in the directory). -/
-def relBegin (cfg : Cfg) (s : St) (p : Proc) (f : Name) : St × Bool :=
-  let P := recount cfg s.disk (s.procs p)
-  if f ∈ P.cache then
-    ({ s with procs := upd s.procs p { P with cache := P.cache.erase f, avail := P.avail + (cfg.req f : Nat) } }, true)
-  else ({ s with procs := upd s.procs p P }, false)
-
-/-- second half, only after a successful cache test: unlink if the file is still there; the holding has ended. -/
-def relEnd (s : St) (f : Name) : St × Bool :=
-  if f ∈ names s.disk then
-    ({ s with disk := rmFile f s.disk, procs := broadcast s.procs (.deleted f), active := s.active.erase f }, true)
-  else ({ s with active := s.active.erase f }, false)
 
 /-- steps that need neither the IPC lock nor the thread lock of `p`. -/
 def freeOf (p : Proc) : Ev → Bool
@@ -189,5 +177,57 @@ theorem release_race_linearised (cfg : Cfg) (s : St) (p q : Proc) (f : Name) (h 
   · by_cases hrq : r = q
     · subst hrq; simp [upd, hr, broadcast]
     · simp [upd, hr, hrq, broadcast]
+
+
+/-- the `reclaim` step of the model is the two done at once. -/
+theorem reclaim_is_decide_then_unlink (cfg : Cfg) (s : St) (q : Proc) (f : Name) :
+    (apply cfg s (.reclaim q f)).1 = watchUnlink (watchDecide s q f) f := by
+  by_cases h : f ∈ names s.disk <;> simp [apply, watchUnlink, watchDecide, h]
+
+def evsW : List Ev := [.acquireBegin 0 7, .acquireEnd 0, .fsEvent 1, .fsEvent 1, .jobGone 7]
+/-- the owner gives the token back and takes it again for the same job (an abandoned start that is retried). -/
+def evsRetry : List Ev := [.release 0 7, .acquireBegin 0 7, .acquireEnd 0]
+def evsSecond : List Ev := [.acquireBegin 1 8, .acquireEnd 1]
+
+
+/-! ### two-phase construction of a new process -/
+
+theorem restart_is_scan_then_watch (cfg : Cfg) (s : St) (p : Proc) :
+    ((restartWatch cfg (restartScan cfg s p) p).procs p).cache = ((apply cfg s (.restart p)).1.procs p).cache ∧
+    ((restartWatch cfg (restartScan cfg s p) p).procs p).avail = ((apply cfg s (.restart p)).1.procs p).avail ∧
+    ((restartWatch cfg (restartScan cfg s p) p).procs p).alive = true ∧
+    ((restartWatch cfg (restartScan cfg s p) p).procs p).pending = [] ∧
+    ∀ f, f ∈ ((restartWatch cfg (restartScan cfg s p) p).procs p).watch ↔ f ∈ ((apply cfg s (.restart p)).1.procs p).watch := by
+  simp [restartWatch, restartScan, apply, recount, fresh]
+
+theorem inv_restartScan (cfg : Cfg) (s : St) (p : Proc) (h : Inv cfg s) (hipc : s.ipc = none) : Inv cfg (restartScan cfg s p) := by
+  apply inv_set_proc cfg s p _ h hipc
+  · simp only [recount_cache]; exact h.nodupDisk
+  · intro g hg; simpa [recount_cache] using hg
+  · simp only [recount_cache, recount_avail]; omega
+
+theorem inv_restartWatch (cfg : Cfg) (s : St) (p : Proc) (h : Inv cfg s) (hipc : s.ipc = none) : Inv cfg (restartWatch cfg s p) := by
+  apply inv_set_proc cfg s p _ h hipc
+  · simp only [recount_cache]; exact h.nodupDisk
+  · intro g hg; simpa [recount_cache] using hg
+  · simp only [recount_cache, recount_avail]; omega
+
+/-- after the second scan the new process knows exactly the directory, its counter is exact, and every file of the
+    directory is watched *or was already known to the first scan*. -/
+theorem restartWatch_spec (cfg : Cfg) (s : St) (p : Proc) :
+    ((restartWatch cfg s p).procs p).cache = names s.disk ∧
+    ((restartWatch cfg s p).procs p).avail = (cfg.total : Int) - (sumReq cfg.req (names s.disk) : Nat) ∧
+    ∀ f ∈ names s.disk, f ∈ ((restartWatch cfg s p).procs p).watch ∨ f ∈ (s.procs p).cache := by
+  refine ⟨by simp [restartWatch, recount], by simp [restartWatch, recount], ?_⟩
+  intro f hf
+  by_cases hc : f ∈ (s.procs p).cache
+  · exact Or.inr hc
+  · left; simp [restartWatch, recount, hf, hc]
+
+/-- process 1 takes the token for job 7 and the job ends; process 0 is being replaced. -/
+def evsBeforeScan : List Ev := [.drop 0, .acquireBegin 1 7, .acquireEnd 1, .jobGone 7]
+/-- in the window between the two scans: the watcher thread the first scan started removes the file; process 1 takes the
+    token again for the same job. -/
+def evsWindow : List Ev := [.reclaim 0 7, .release 1 7, .acquireBegin 1 7, .acquireEnd 1]
 
 end XpmVerif.FileTokens
